@@ -105,6 +105,9 @@ class CommitType(str, Enum):
     NO_COMMIT = "no_commit"
     LINK_ONLY = "link_only"
     FULL = "full"
+    # The names under which set_store documents the commit types (aliases of the above)
+    NONE = "no_commit"
+    LINKS_ONLY = "link_only"
 
 
 def _pprint_exception(e: Exception) -> str:
